@@ -58,7 +58,16 @@ class InstantiatedClass(parser.Class):
         # Instantiate all instance methods
         self.methods = self.instantiate_methods(typenames)
         
-        self.dunder_methods = original.dunder_methods
+        # Instantiate the arguments of the dunder methods (e.g. __contains__(T key))
+        self.dunder_methods = [
+            parser.DunderMethod(
+                dunder.name,
+                parser.ArgumentList(
+                    instantiate_args_list(dunder.args.list(), typenames,
+                                          self.instantiations,
+                                          self.cpp_typename())))
+            for dunder in original.dunder_methods
+        ]
 
         super().__init__(
             self.template,
